@@ -19,6 +19,11 @@ def make_case(rng, multi):
     src = c['src']
     if rng.random() < 0.4:
         src = 'ä ö ' + src        # non-ASCII text in front: xml-b counts bytes (not inserted in the middle: behind a control word it would glue to a word)
+    phrase = None
+    if not multi and rng.random() < 0.5:
+        # a flagged text that spans a line break of the file (a repeated word at a line end, say)
+        phrase = 'Qzzx\nQzzy'
+        src = src.rstrip('\n') + '\n\nQzzw ' + phrase + ' Qzzv.\n'
     if not src.endswith('\n') and rng.random() < 0.7:
         src += '\n'
     words = [w for w in re.findall(r'Q[a-z]+', src)]
@@ -32,7 +37,10 @@ def make_case(rng, multi):
             src = src[:m.start()] + w2 + src[m.end():]
             uniq[uniq.index(w)] = w2
     rng.shuffle(uniq)
+    uniq = [w for w in uniq if w not in ('Qzzx', 'Qzzy')]
     flag = uniq[:rng.randint(1, 4) if not multi else rng.randint(4, 9)]
+    if phrase:
+        flag.append(phrase)
     return {'src': src, 'flag': flag, 'multi': multi}
 
 def expected(case):
@@ -84,7 +92,7 @@ def judge(case, res):
             if lc != wantlc:
                 fails.append('plain report: messages at (line, column) %r, flagged words stand at %r (ordered by position)' % (lc, wantlc))
             for (txt, sp, mk), (o, n, w) in zip(ctxs, want):
-                if txt[len(sp):len(sp) + len(mk)] != w:
+                if txt[len(sp):len(sp) + len(mk)] != w.replace('\n', ' '):       # the proofreader's excerpt shows a line break as a blank
                     fails.append('plain report: the excerpt marks %r instead of the flagged word %r' % (txt[len(sp):len(sp) + len(mk)], w))
         elif mode == 'json':
             try:
@@ -97,7 +105,8 @@ def judge(case, res):
             for m, (o, n, w) in zip(ms, want):
                 l, c = shellrun.linecol(tex, o)
                 pv = m.get('priv', {})
-                if (pv.get('fromy'), pv.get('fromx'), pv.get('toy'), pv.get('tox')) != (l - 1, c - 1, l - 1, c - 1 + n):
+                l2, c2 = shellrun.linecol(tex, o + n - 1)
+                if (pv.get('fromy'), pv.get('fromx'), pv.get('toy'), pv.get('tox')) != (l - 1, c - 1, l2 - 1, c2):
                     fails.append('json report: priv %r for the word at line %d column %d length %d' % (pv, l, c, n))
             got_by_mode[mode] = [shellrun.linecol(tex, o) for (o, n) in got if 0 <= o <= len(tex)]
         elif mode in ('xml', 'xml-b'):
@@ -110,11 +119,13 @@ def judge(case, res):
             for (o, n, w) in want:
                 l, c = shellrun.linecol(tex, o)
                 ls = tex.rfind('\n', 0, o) + 1
+                l2, c2 = shellrun.linecol(tex, o + n - 1)
+                ls2 = tex.rfind('\n', 0, o + n - 1) + 1
                 if mode == 'xml-b':
-                    fx = len(tex[ls:o].encode()); tx = len(tex[ls:o + n].encode())
+                    fx = len(tex[ls:o].encode()); tx = len(tex[ls2:o + n].encode())
                 else:
-                    fx = c - 1; tx = c - 1 + n
-                wantx.append((l - 1, fx, l - 1, tx))
+                    fx = c - 1; tx = c2
+                wantx.append((l - 1, fx, l2 - 1, tx))
             if got != wantx:
                 fails.append('%s report: (fromy, fromx, toy, tox) %r, expected %r' % (mode, got, wantx))
             got_by_mode[mode] = [(a + 1, None) for (a, b, c, d) in got]
